@@ -1145,8 +1145,6 @@ def value_task(t):
                     st["samples"].append({"format": F, "value": show(v, 160), "class": cls,
                                           "written_by_filter": out[1][:160].decode("utf-8", "replace") if F != "cbor" else out[1][:80].hex(),
                                           "read_back": show(out[2], 160)})
-                if rng.random() < (0.03 if part == "pool" else 0.01):
-                    st["cli_pick"].append((enc(v), cls, reason))
     except WorkerDied as e:
         st["inconc"].append(classify_death(e))
     if part != "pool":
@@ -1764,8 +1762,6 @@ def xml_task(t):
                 if len(st["samples"]) < 2 and rng.random() < 0.05 and out[0] == "ok":
                     st["samples"].append({"format": "xml", "origin": origin, "document": doc[:300].decode("utf-8", "replace"),
                                           "fromxml": show(out[1], 300), "toxml": out[2][:300].decode("utf-8", "replace")})
-                if rng.random() < 0.04:
-                    st["cli_pick"].append((doc.hex(), "in", origin))
     except WorkerDied as e:
         st["inconc"].append(classify_death(e))
     st["digests"] = list(st["digests"])
@@ -2161,6 +2157,22 @@ def main():
     nmut = run.size(300, 6000)
     for i in range((nmut + 59) // 60):
         tasks.append(("xml", "mut", i, run.seed, 60, 0))
+    # ---- the real CLI on a seeded sample (same pools and generators), in the same parallel pass
+    rng = run.rng("cli")
+    ncli = {"yaml": run.size(80, 3000), "cbor": run.size(50, 2000), "toml": run.size(50, 2000), "csv": run.size(50, 2000),
+            "tsv": run.size(50, 2000), "xml": run.size(40, 1200)}
+    for F in VALUE_FORMATS:
+        pv = [v for v, _t, _g in pool_values(F, rng)]
+        rej = [v for v in pv if classify(F, v)[0] == "reject"]
+        rng.shuffle(rej)
+        pick = rej[:max(6, ncli[F] // 10)] + rng.sample(pv, min(len(pv), ncli[F] * 2 // 3)) + \
+            [v for v, _t in rand_values(F, rng, ncli[F] // 3)]
+        items = [(enc(v),) + classify(F, v) for v in pick]
+        for lo in range(0, len(items), 10):
+            tasks.append(("cli", F, items[lo:lo + 10], jaq))
+    xdocs = [render(gen_doc(rng)).encode("utf-8") for _ in range(ncli["xml"])]
+    for lo in range(0, len(xdocs), 10):
+        tasks.append(("cli", "xml", [(d.hex(), "in", "generated") for d in xdocs[lo:lo + 10]], jaq))
     # big pool parts first
     tasks.sort(key=lambda t: 0 if t[1] == "pool" and t[0] == "yaml" else 1)
 
@@ -2172,10 +2184,28 @@ def main():
     dropped = 0
     distinct = Distinct()
     samples = Samples(10, run.rng("samples"))
-    cli_items = {}
     xml_obs = {}
+    cli = {}
     for st in par.pmap(dispatch, tasks, run.jobs):
         F = st["format"]
+        if "cli_values" in st:
+            d = cli.setdefault(F, {"values": 0, "process_spawns": 0, "agree_with_library_path": 0,
+                                   "agree_with_filters": 0, "differ_from_filters_because_of_reported_failure": 0,
+                                   "outside_domain_rejected": 0, "json_reader_checked": 0})
+            d["values"] += st["cli_values"]
+            d["process_spawns"] += st["cli_spawns"]
+            d["agree_with_library_path"] += st["agree_library"]
+            d["agree_with_filters"] += st["agree_filter"]
+            d["differ_from_filters_because_of_reported_failure"] += st["disagree_filter_explained"]
+            d["outside_domain_rejected"] += st["reject_confirmed"]
+            d["json_reader_checked"] += st["json_reader"]
+            for key, wit in st["failures"]:
+                run.violation(key + ":" + hashlib.md5(wit["value"].encode()).hexdigest()[:8], wit)
+            for cls in st["inconc"]:
+                run.inconc(cls)
+            if st["sample"]:
+                samples.add(st["sample"])
+            continue
         p = per.setdefault(F, {"values": 0, "roundtrips": 0, "domain_classes": {}, "paths": {}, "independent_readers": {},
                                "outside_domain_rejected": 0, "documented_exceptions_observed": {}})
         p["values"] += st["values"]
@@ -2203,9 +2233,8 @@ def main():
         distinct.update(st["digests"])
         for s in st["samples"]:
             samples.add(s)
-        cli_items.setdefault(F, []).extend(st["cli_pick"])
 
-    phases["round_trips"] = round(time.time() - t_phase, 1)
+    phases["round_trips_and_cli"] = round(time.time() - t_phase, 1)
     t_phase = time.time()
     # ---- minimise failures, report under canonical keys
     reps, not_minimised = group_failures(fails, run.rng("groups"))
@@ -2220,45 +2249,13 @@ def main():
 
     phases["minimise"] = round(time.time() - t_phase, 1)
     t_phase = time.time()
-    # ---- the real CLI on a sample
-    rng = run.rng("cli")
-    ncli = {"yaml": run.size(80, 3000), "cbor": run.size(50, 2000), "toml": run.size(50, 2000), "csv": run.size(50, 2000),
-            "tsv": run.size(50, 2000), "xml": run.size(40, 1200)}
-    ctasks = []
-    for F, items in sorted(cli_items.items()):
-        items.sort(key=lambda it: json.dumps(it[0]) if not isinstance(it[0], str) else it[0])
-        rng.shuffle(items)
-        # keep the classes represented
-        rej = [it for it in items if it[1] == "reject"][:max(10, ncli[F] // 10)]
-        rest = [it for it in items if it[1] != "reject"][:ncli[F]]
-        pick = rej + rest
-        for lo in range(0, len(pick), 10):
-            ctasks.append(("cli", F, pick[lo:lo + 10], jaq))
-    cli = {}
-    for st in par.pmap(dispatch, ctasks, run.jobs):
-        d = cli.setdefault(st["format"], {"values": 0, "process_spawns": 0, "agree_with_library_path": 0,
-                                           "agree_with_filters": 0, "differ_from_filters_because_of_reported_failure": 0,
-                                           "outside_domain_rejected": 0, "json_reader_checked": 0})
-        d["values"] += st["cli_values"]
-        d["process_spawns"] += st["cli_spawns"]
-        d["agree_with_library_path"] += st["agree_library"]
-        d["agree_with_filters"] += st["agree_filter"]
-        d["differ_from_filters_because_of_reported_failure"] += st["disagree_filter_explained"]
-        d["outside_domain_rejected"] += st["reject_confirmed"]
-        d["json_reader_checked"] += st["json_reader"]
-        for key, wit in st["failures"]:
-            run.violation(key + ":" + hashlib.md5(wit["value"].encode()).hexdigest()[:8], wit)
-        for cls in st["inconc"]:
-            run.inconc(cls)
-        if st["sample"]:
-            samples.add(st["sample"])
     opt = []
     for name, ok, wit in option_probes(jaq, cl()):
         opt.append({"option": name, "reads_back": ok})
         if not ok:
             run.violation("yaml:option:" + name, wit)
 
-    phases["cli"] = round(time.time() - t_phase, 1)
+    phases["option_probes"] = round(time.time() - t_phase, 1)
     evaluations = sum(p["roundtrips"] for p in per.values()) + sum(d["values"] for d in cli.values())
     consumers = {"filters(toF|fromF)": sum(p["paths"].get("filter", 0) for p in per.values()),
                  "library(write::write/read::parse)": sum(n for p in per.values() for k, n in p["paths"].items() if k != "filter"),
